@@ -22,8 +22,8 @@ TRUSTED = ['z3 4.x/5.x', 'cbv AST interpreter + primitive axioms', 'spec functio
            'torch/numpy/pywt themselves']
 
 
-def rp(fn, **cfg):
-    return {'fn': fn, 'cfg': cfg}
+def rp(fn_, **cfg):
+    return {'fn': fn_, 'cfg': cfg}
 
 
 def helper_groups(tier):
